@@ -91,6 +91,16 @@ def fault_specs(progs, sem, tier, rng):
                     specs.append(psrun.make_spec(p, sem[p["name"]], {"kind": "random", "seed": rng.randrange(1 << 30), "penv": rng.choice([0.5, 0.8])},
                                                  name="%s#hf%s%s%d" % (p["name"], call_, first[6], n),
                                                  faults={later: "errors", "TOP.B[]/main/0": "errors"}, hold=[first], restart=True))
+        # cluster mode: a stage called with `local = true` is running on the submit host when mrp
+        # exits because another stage has failed; it dies with mrp (the cluster jobs live on) and
+        # the restarted mrp has to run it again
+        if p["name"] == "local_stages":
+            for held in ("TOP.L[]/main/0", "TOP.LS[]/split/0", "TOP.LS[]/main/1", "TOP.LS[]/join/0"):
+                for n in range({"quick": 2, "thorough": 6}[tier]):
+                    # (the failing stage is the slow one: the held job has begun by the time it fails)
+                    specs.append(psrun.make_spec(p, sem[p["name"]], {"kind": "slow", "slow": "TOP.B[]", "seed": rng.randrange(1 << 30), "penv": rng.choice([0.8, 0.95])},
+                                                 name="%s#cl%s%d" % (p["name"], held.split("/")[0][-4:-2] + held.split("/")[1], n), maxjobs=2,
+                                                 faults={"TOP.B[]/main/0": "errors"}, hold=[held], restart=True))
         for n, (key, kind) in enumerate(chosen[:max(per_prog, len(seen))]):
             sc = {"kind": "random", "seed": rng.randrange(1 << 30), "penv": rng.choice([0.3, 0.6, 0.9])}
             specs.append(psrun.make_spec(p, sem[p["name"]], sc, name="%s#f%d" % (p["name"], n),
@@ -225,8 +235,9 @@ def run(tier, replay=None):
             # only if the same schedule comes to rest again, three times out of three, alone
             again = psrun.run_specs([dict(s, name=s["name"] + "#again%d" % k_, sched={"kind": "script", "script": r["script"]})
                                      for k_ in range(3)], nproc=3)
-            if not all(a_["states"][0] != "failed" for a_ in again):
-                print("NOTE the run %s came to rest without failing in the batch but fails as it must when repeated alone: not reported" % s["name"])
+            if not all(a_["states"] == r["states"] for a_ in again):
+                print("NOTE the run %s came to rest (%s) in the batch but not when repeated alone (%s): not reported" % (
+                    s["name"], r["states"], [a_["states"] for a_ in again]))
                 continue
         viols.append({
             "key": "C06:%s:%s:%s:%s%s" % (prog, fk, fv, b["what"].split(":")[0][:60], um),
